@@ -10,6 +10,9 @@ import VarlinkVerif.Model.Idl
 import VarlinkVerif.Model.Idl.Spec
 import VarlinkVerif.Lemmas.IdlDup
 import VarlinkVerif.Lemmas.IdlIfaceName
+import VarlinkVerif.Lemmas.IdlCompleteFile
+import VarlinkVerif.Lemmas.IdlWF
+import VarlinkVerif.Lemmas.IdlSound
 
 namespace VV
 open Idl
@@ -67,6 +70,95 @@ theorem C11_classes (c : Char) (d : Str) :
     isWs c = Spec.isSpace c ∧ isEolChar c = Spec.isNewline c ∧ isAlnum c = Spec.isLetterOrDigit c ∧
     isAlpha c = Spec.isLetter c ∧ isUpper c = Spec.isUpperLetter c ∧ trimDoc d = Spec.trim d :=
   ⟨isWs_eq c, isEolChar_eq c, isAlnum_eq c, isAlpha_eq c, isUpper_eq c, trimDoc_eq d⟩
+
+/-! ### the whole grammar -/
+
+/-- **C11 completeness**: `Gram.FileText p s` is the declarative grammar (Model/Idl/Gram.lean: a
+    relation between a text and the definition it denotes, no parsing strategy).  For EVERY text
+    `s` and definition `p`: if the grammar derives `s` for `p`, the PEG accepts `s` and returns
+    exactly `p` — interface name, documentation, member kinds and names in order of appearance,
+    field names, types.  (Ordered choice and possessive repetition never reject or mis-parse a
+    text of the grammar.) -/
+theorem C11_complete (s : Input) (p : Parsed) (h : Gram.FileText p s) : parse s = some p :=
+  parse_complete h
+
+/-- **C11 soundness**: for EVERY input `s`: whatever the PEG accepts is a text of the declarative
+    grammar, for exactly the definition it returns — the returned name, documentation strings,
+    member kinds/names/order, field names and types are those the text denotes (the structure
+    mirrors the source). -/
+theorem C11_sound (s : Input) (p : Parsed) (h : parse s = some p) : Gram.FileText p s :=
+  parse_sound h
+
+/-- **C11: the parser accepts exactly the grammar** and returns exactly the denoted definition -/
+theorem C11_accepts_exactly (s : Input) (p : Parsed) : parse s = some p ↔ Gram.FileText p s :=
+  ⟨C11_sound s p, C11_complete s p⟩
+
+/-- `try_from` returns a definition iff the text is in the grammar and defines no name twice;
+    the definition is `from_token` of the denoted member list -/
+theorem C11_tryFrom_iff (s : Input) (i : IDL) :
+    tryFrom s = .ok i ↔ ∃ p, Gram.FileText p s ∧ (p.members.map (·.name)).Nodup ∧ i = fromToken p := by
+  unfold tryFrom
+  constructor
+  · intro h
+    split at h
+    · rename_i p hp
+      dsimp only at h
+      split at h
+      · rename_i he
+        simp only [Outcome.ok.injEq] at h
+        refine ⟨p, C11_sound s p hp, ?_, h.symm⟩
+        have inv := foldInv_fromToken p
+        refine Classical.not_not.mp (fun hn => ?_)
+        obtain ⟨n, hn'⟩ := (isDup_iff_not_nodup p.members).mpr hn
+        obtain ⟨msg, hmsg, _⟩ := inv.complete n hn'
+        simp only [List.isEmpty_iff] at he
+        rw [he] at hmsg; simp at hmsg
+      · cases h
+    · cases h
+  · rintro ⟨p, hp, hnd, rfl⟩
+    rw [C11_complete s p hp]
+    dsimp only
+    have : (fromToken p).error = [] := by
+      have inv := foldInv_fromToken p
+      cases he : (fromToken p).error with
+      | nil => rfl
+      | cons msg r =>
+        obtain ⟨n, hn, _⟩ := inv.sound msg (by rw [he]; simp)
+        exact absurd hnd ((isDup_iff_not_nodup _).mp ⟨n, hn⟩)
+    simp [this]
+
+/-- the grammar is unambiguous: a text denotes at most one definition -/
+theorem C11_deterministic (s : Input) (p p' : Parsed) (h : Gram.FileText p s) (h' : Gram.FileText p' s) : p = p' := by
+  have := (C11_complete s p h).symm.trans (C11_complete s p' h')
+  simpa using this
+
+/-- **C11 soundness, structural part**: whatever the PEG returns is a definition of the grammar's
+    shape — the interface name is a name of the specification, every member name is a type name,
+    every field name a field name, every documentation string is trimmed trivia, no enum is empty,
+    no option wraps an option — for every input. -/
+theorem C11_result_wellformed (s : Input) (p : Parsed) (h : parse s = some p) :
+    Spec.isInterfaceName p.name = true ∧ IsDoc p.doc ∧ (∀ m ∈ p.members, WFMember m) ∧ p.members ≠ [] :=
+  parse_wf h
+
+/-- and it denotes itself under re-rendering: the result of an accepted text, rendered by the
+    formatter at any width, is derived by the grammar and parsed back (C10) -/
+theorem C11_result_denotable (s : Input) (i : IDL) (h : tryFrom s = .ok i) (max : Nat) :
+    Gram.FileText (regroup i) (Fmt.multiline i 0 max) ∧ parse (Fmt.multiline i 0 max) = some (regroup i) :=
+  ⟨file_layout i (wf_of_tryFrom h) max, parse_multiline i (wf_of_tryFrom h) max⟩
+
+/-- non-vacuity of `Gram.FileText`: a small definition with a comment, CR LF and a tab -/
+example : Gram.FileText ⟨"a.b".toList, "# d".toList, [⟨"T".toList, [], .typeStruct .nil⟩]⟩
+    "# d\r\ninterface\ta.b\ntype T ()".toList := by
+  refine ⟨"# d\r\n".toList, "\t".toList, "\ntype T ()".toList, [], by decide, ?_, by decide, ?_, by decide, by decide, ?_, Gram.Trivia.nil⟩
+  · exact Gram.Trivia.comment (body := " d".toList) (e := '\r') (by decide) (by decide)
+      (Gram.Trivia.newline (by decide) Gram.Trivia.nil)
+  · exact Gram.Trivia.space (by decide) Gram.Trivia.nil
+  · refine ⟨"\n".toList, "type T ()".toList, by decide, Or.inl ⟨[], ['\n'], by decide, by simp, Or.inl rfl⟩, ?_⟩
+    refine ⟨[], " ".toList, " ".toList, Gram.Trivia.nil, by decide, Gram.Trivia.space (by decide) Gram.Trivia.nil, by decide,
+      Gram.Trivia.space (by decide) Gram.Trivia.nil, by decide, ?_⟩
+    refine ⟨"()".toList, by decide, ?_⟩
+    simp only [Gram.StructText, Gram.TypeText]
+    exact ⟨[], [], by decide, by simp [Gram.FieldsText], Gram.Trivia.nil⟩
 
 /-! ### duplicates -/
 
